@@ -30,7 +30,7 @@ D0    == Delay("DELAY 0 3", <<0>>, <<>>, 3)
 Fn1   == Fence("FENCE 1", <<1>>)
 FnAll == Fence("FENCE", <<>>)
 Sh0a  == SetShift("SHIFT-PHASE 0 \"a\" 1", F0a)
-Core  == {P0a, NP0b, P1a, NP01c, NC1a, D0a, D0, Fn1, FnAll, Sh0a}
+Core  == {P0a, NP0b, P1a, NP01c, D0a, D0, Fn1, FnAll, Sh0a}
 
 P01c  == Pulse("PULSE 0 1 \"c\" flat(duration: 1, iq: 1)", TRUE, F01c, Tmpl(1, 0, 0))
 C0b   == Capture("CAPTURE 0 \"b\" flat(duration: 1, iq: 1) ro[1]", TRUE, F0b, Tmpl(1, 0, 0))
@@ -50,7 +50,7 @@ NP2z  == Pulse("NONBLOCKING PULSE 2 \"z\" flat(duration: 2, iq: 1)", FALSE, Fr("
 NPwc  == Pulse("NONBLOCKING PULSE 0 1 \"c\" w", FALSE, F01c, Def("w"))     \* no SAMPLE-RATE: unknown duration
 Nop   == Untimed("NOP")
 Rst   == Reset("RESET 0", <<0>>)
-Full  == Core \cup {P01c, C0b, R0a, NR1a, D01, D1b, D0ab, Fn0, Sf1a, Sw, Perf, NPw0a, NPw0b, NP2z, NPwc, Nop, Rst}
+Full  == Core \cup {NC1a, P01c, C0b, R0a, NR1a, D01, D1b, D0ab, Fn0, Sf1a, Sw, Perf, NPw0a, NPw0b, NP2z, NPwc, Nop, Rst}
 
 \* calibrated source instructions: gate text -> body (instructions or other gates)
 Gate(text) == [k |-> "Gate", text |-> text]
